@@ -804,15 +804,10 @@ def main(ctx, replay):
     if rc != 0:
         raise RuntimeError("lib-twins failed: " + err[-1000:])
     go_tw = json.loads(out)
-    ri = route_infos[0]["/rot"]
-    rot_cfg = G.coq_hmac_cfg(G.Intern(), {"sig": "a", "ts": "b", "nonce": "c", "tol": 1, "static": [b"inl"], "versions": versions["/rot"]})
-    rot_cfg = rot_cfg  # interned names are short (<=2 bytes printed inline, longer ones need the preamble) -> rebuild with one Intern below
     shas = sorted({c["body"] for c in cases})[:60 if ctx.tier == "quick" else 400]
     hm = []
     for c in cases:
         if c["route"] in STATIC and c["tag"].startswith(("clock", "body-shape", "window", "path-cleaned")):
-            for (k_, v_) in c["headers"][:1]:
-                pass
             ts_v = [v for k, v in c["headers"] if G.canonical_header(k if isinstance(k, str) else k.decode()) in (G.canonical_header(NAMES.get(c["route"], DEFAULT_NAMES)[1]),)]
             if ts_v and isinstance(ts_v[0], str):
                 key = (STATIC[c["route"]] or [b"v1"])[0]
